@@ -183,6 +183,16 @@ def gen_num(ctx):
                 cases.append("b\tcl\t%s" % h)
                 cases.append("b\tchunk\t%s" % h)
                 cases.append("b\tstatus\t%s" % h)
+    # EVERY byte value in a digit position: all one-byte strings, and every byte before / after a digit, in bases 10 and 16, for each numeric parser
+    for b in range(256):
+        for t in (bytes([b]), bytes([0x31, b]), bytes([b, 0x32]), bytes([0x38, b, 0x30])):
+            h = vf.hexs(t)
+            cases.append("b\tpint\t%s\t10" % h)
+            cases.append("b\tpint\t%s\t16" % h)
+            cases.append("b\tpiw\t%s\t10" % h)
+            cases.append("b\tcl\t%s" % h)
+            cases.append("b\tstatus\t%s" % h)
+            cases.append("b\tchunk\t%s" % h)
     for base in (2, 8, 36):
         for t in (b"zz", b"1010102", b"777", b"78", b"Zz9", b""):
             cases.append("b\tpint\t%s\t%d" % (vf.hexs(t), base))
